@@ -112,7 +112,8 @@ def final_check(h, seed, L):
         e = exp[n]
         if np.any(e != 0):
             if g is None or not csad.close(g, e):
-                fail = ("grad_value", n, "L=%s: impl %s expected (forward as recorded) %s" % (L, None if g is None else explore.fmt(g), explore.fmt(e)))
+                fail = ("grad_value", n, "L=%s: impl %s expected (forward as recorded) %s" % (L, None if g is None else explore.fmt(g), explore.fmt(e)),
+                        dict(got=None if g is None else g.tolist(), exp=e.tolist(), before=None if before[n] is None else before[n].tolist()))
                 break
         else:
             b = before[n]
@@ -236,7 +237,7 @@ def finalize(v):
     tail = "%s.backward()\n# %s: %s %s\n" % (L, f[2], f[3], f[4]) if L else "# %s at step %d: %s\n" % (f[2], f[0], f[4])
     return dict(
         case=dict(history=hm, seed=seed, L=L),
-        failure=dict(step=f[0], kind=f[2], where=f[3], detail=f[4]),
+        failure=dict(step=f[0], kind=f[2], where=f[3], detail=f[4], extra=f[5] if len(f) > 5 else None),
         script=script(INIT, hm, seed, tail),
         signature=C04.signature(hm + [("backward", L)], f),
         min_history=hm,
@@ -258,6 +259,12 @@ def m_stale_consumer_after_clear(v):
         return False
     if not any(s[0] in ("backward", "clear") for s in h):
         return False
+    extra = (v.get("failure") or {}).get("extra") or {}
+    if extra.get("before") is not None and extra.get("got") is not None:
+        # an *accumulation* onto the gradient left by an earlier pass is a different defect (backward must
+        # null the gradients of the graph it traverses): never attributed to this finding
+        if np.allclose(np.asarray(extra["got"]), np.asarray(extra["before"]) + np.asarray(extra["exp"]), rtol=1e-9, atol=1e-12) and np.any(np.asarray(extra["before"]) != 0):
+            return False
     ex = Exec(h, seed)
     if ex.failure is not None or ex.loud:
         ex.close()
